@@ -49,8 +49,45 @@ def pk2Token : Key → String
   | .B b => toString b
   | _ => "?"
 
+
+/-! persistence layer: `pcase fv lv dil wr0 wr1 steps…` (grammar in harness/data/account/zz_verif_c36_test.go) -/
+
+def parseSteps (dil : Nat) (hd : 0 < dil) : List String → Option (List NOp)
+  | [] => some []
+  | t :: rest =>
+    match parseSteps dil hd rest with
+    | none => none
+    | some ops =>
+      if t = "R" then some (.restart :: ops)
+      else if t.startsWith "a" then
+        match (t.drop 1).toNat? with
+        | some r => some (.advance (idForRound r dil hd) dil :: ops)
+        | none => none
+      else none
+
+def roundToken (s : State) (dil : Nat) (hd : 0 < dil) (r : Nat) : Char := signToken s (idForRound r dil hd)
+
+def view (s : State) (dil : Nat) (hd : 0 < dil) (wr0 wr1 : Nat) : String :=
+  let win := String.ofList ((List.range' wr0 (wr1 - wr0 + 1)).map (roundToken s dil hd))
+  s!"{s.firstBatch} {s.batches.length} {if s.batchesNonNil then 1 else 0} {s.firstOffset} {s.offsets.length} {win}"
+
+def handleP (fv lv dil wr0 wr1 : Nat) (steps : List String) : String :=
+  if hd : 0 < dil then
+    if lv < fv ∨ lv - fv > 4096 ∨ wr1 < wr0 ∨ wr1 - wr0 > 64 then "bad-op" else
+    match parseSteps dil hd steps with
+    | none => "bad-op"
+    | some h =>
+      let s0 := generateForRounds fv lv dil hd
+      let nd := nrun ⟨s0, s0⟩ h
+      s!"{view nd.mem dil hd wr0 wr1} | {view (reload nd.disk) dil hd wr0 wr1}"
+  else "bad-op"
+
 def handle (line : String) : String :=
   match fields line with
+  | "pcase" :: fv :: lv :: dil :: wr0 :: wr1 :: steps =>
+    match fv.toNat?, lv.toNat?, dil.toNat?, wr0.toNat?, wr1.toNat? with
+    | some fv, some lv, some dil, some wr0, some wr1 => handleP fv lv dil wr0 wr1 steps
+    | _, _, _, _, _ => "bad-op"
   | "case" :: start :: n :: wb0 :: wb1 :: wo :: adv :: ops =>
     match start.toNat?, n.toNat?, wb0.toNat?, wb1.toNat?, wo.toNat?, parseOps ops with
     | some start, some n, some wb0, some wb1, some wo, some ops =>
